@@ -151,6 +151,31 @@ def item_special():
             f"Definition opt_has_delitem : bool := {'true' if chr(39) + 'delitem' + chr(39) in src else 'false'}.\n")
 
 
+TRY_OLD = ("def visit_Try(self, node):\n    new_node = self.generic_visit(node)\n    assert isinstance(new_node, ast.Try)\n"
+           "    return ast.copy_location(ast.Try(body=_filter_dead_code(new_node.body), handlers=new_node.handlers, "
+           "orelse=_filter_dead_code(new_node.orelse), finalbody=_filter_dead_code(new_node.finalbody)), new_node)")
+TRY_NEW = ("def visit_Try(self, node):\n    new_node = self.generic_visit(node)\n    assert isinstance(new_node, ast.Try)\n"
+           "    new_finalbody = _filter_dead_code(new_node.finalbody)\n"
+           "    if not new_finalbody and (not new_node.handlers):\n        new_finalbody = [ast.Pass()]\n"
+           "    return ast.copy_location(ast.Try(body=_filter_dead_code(new_node.body), handlers=new_node.handlers, "
+           "orelse=_filter_dead_code(new_node.orelse), finalbody=new_finalbody), new_node)")
+
+
+def item_try():
+    """visit_Try: does it keep an (empty) `finally` clause when nothing else would be left of the statement?"""
+    fn = ast.parse(ast.unparse(_cls_method("visit_Try"))).body[0]
+    fn.returns = None
+    for a in fn.args.args:
+        a.annotation = None
+    fn.body = [s_ for s_ in fn.body if not (isinstance(s_, ast.Expr) and isinstance(s_.value, ast.Constant))]
+    txt = ast.unparse(ast.fix_missing_locations(fn))
+    if txt == TRY_NEW:
+        return "Definition opt_try_keeps_finally : bool := true.\n"
+    if txt == TRY_OLD:
+        return "Definition opt_try_keeps_finally : bool := false.\n"
+    raise Refuse("visit_Try no longer has a modelled shape:\n" + txt)
+
+
 def _only(fn, name):
     def f():
         for line in fn().splitlines():
@@ -173,4 +198,5 @@ ITEMS = [
     ("opt_is_uses_eq", _only(item_special, "opt_is_uses_eq")),
     ("opt_has_getitem", _only(item_special, "opt_has_getitem")),
     ("opt_has_delitem", _only(item_special, "opt_has_delitem")),
+    ("opt_try_keeps_finally", item_try),
 ]
